@@ -1181,4 +1181,329 @@ theorem dropC_neutralize_NF (ty : BinOp) (hty : ty ≠ .div) {t : Arg} (ht : NF 
 
 end
 
+/-! ## the merge, `simplify_raw`, `evaluate` -/
+
+section
+variable {isReg : Bytes → Bool}
+
+theorem mergeable_ne_mod {op : BinOp} (h : mergeable op = true) : op ≠ .mod := by
+  intro e; subst e; simp [mergeable] at h
+
+/-- the last `else` branch of `simplify_raw`: merge of two `NF` operands -/
+theorem merge_NF {op : BinOp} {l r : Arg} (hl : NF isReg l) (hr : NF isReg r) (hlr : ¬ (isC l = true ∧ isC r = true))
+    (hop : mergeable op = true) {c : Bool} {a' : Arg} (he : merge op l r = .ok (c, a')) : NF isReg a' := by
+  by_cases hbf : bothFound op l r = false
+  · rw [merge_of_not_both hbf (mergeL_ne_panic op l (NF_nb hl)) (mergeR_ne_panic op r (NF_nb hr))] at he
+    exact (neutralizeRaw_bin_NF hl hr hlr (fun _ => hbf) (fun e => absurd e (mergeable_ne_mod hop)) he).1
+  · unfold merge at he
+    unfold bothFound at hbf
+    cases hL : mergeL op l with
+    | panic => simp [hL] at he
+    | none => simp [hL, Find.isFound] at hbf
+    | found c1 s1 =>
+      cases hR : mergeR op r with
+      | panic => simp [hL, hR] at he
+      | none => simp [hR, Find.isFound] at hbf
+      | found c2 s2 =>
+        simp only [hL, hR] at he
+        cases hc : combine op s1 s2 c1 c2 with
+        | error k => simp [hc] at he
+        | ok cc =>
+          simp only [hc] at he
+          cases hn : neutralize (mergeTree op l r cc) with
+          | panic => simp [hn] at he
+          | err e => simp [hn] at he
+          | ok p =>
+            obtain ⟨c3, a3⟩ := p
+            simp only [hn, Res.ok.injEq, Prod.mk.injEq] at he
+            obtain ⟨_, rfl⟩ := he
+            unfold mergeTree at hn
+            cases hcr : cval r with
+            | some b =>
+              have hcl : cval l = none := by
+                cases hx : cval l with
+                | none => rfl
+                | some a => exact (hlr ⟨cval_some_isC hx, cval_some_isC hcr⟩).elim
+              simp only [hcl, hcr] at hn
+              have hfl : (findC op l false).isFound = true := by
+                unfold mergeL at hL; simp only [hcl] at hL; rw [hL]; rfl
+              exact (setC_neutralize_NF op cc hl hfl hn).1
+            | none =>
+              simp only [hcr] at hn
+              -- the rhs is searched: not a division
+              have hdiv : op ≠ .div := by
+                intro e; subst e
+                unfold mergeR at hR; simp [hcr] at hR
+              have hfr : (findC op r false).isFound = true := by
+                unfold mergeR at hR
+                have : (op == BinOp.div) = false := by cases op <;> simp_all
+                simp only [hcr, this, Bool.false_eq_true, if_false] at hR
+                rw [← findC_isFound_inv op r (preInv op), hR]; rfl
+              obtain ⟨c1', l₂, c2', r₂, c3', e1, e2, e3⟩ := neutralize_bin_ok hn
+              obtain ⟨r1, _, r3, r4⟩ := dropC_neutralize_NF op hdiv hr hfr e2
+              have hl₂ : NF isReg l₂ := by
+                cases hcl : cval l with
+                | some a =>
+                  simp only [hcl, neutralize, Res.ok.injEq, Prod.mk.injEq] at e1
+                  obtain ⟨_, rfl⟩ := e1; trivial
+                | none =>
+                  simp only [hcl] at e1
+                  have hfl : (findC op l false).isFound = true := by
+                    unfold mergeL at hL; simp only [hcl] at hL; rw [hL]; rfl
+                  exact (setC_neutralize_NF op cc hl hfl e1).1
+              exact (neutralizeRaw_bin_NF hl₂ r1 (fun ⟨_, q⟩ => by rw [r3] at q; cases q)
+                (fun _ => by rw [bothFound_eq _ _ _ hdiv, r4]; simp)
+                (fun e => absurd e (mergeable_ne_mod hop)) e3).1
+
+/-- **`simplify_raw` of a binary node with `NF` operands is `NF`** -/
+theorem simplifyRaw_bin_NF {op : BinOp} {l r : Arg} (hl : NF isReg l) (hr : NF isReg r) {c : Bool} {a' : Arg}
+    (he : simplifyRaw (.bin op l r) = .ok (c, a')) : NF isReg a' := by
+  by_cases hlr : isC l = true ∧ isC r = true
+  · obtain ⟨h1, h2⟩ := hlr
+    cases l <;> simp [isC, cval] at h1
+    cases r <;> simp [isC, cval] at h2
+    rename_i x y
+    simp only [simplifyRaw, isBad, cval] at he
+    cases hf : foldBin op x y with
+    | error k => simp [hf] at he
+    | ok w =>
+      simp only [hf, Bool.false_eq_true, if_false, Res.ok.injEq, Prod.mk.injEq] at he
+      obtain ⟨_, rfl⟩ := he; trivial
+  · rw [simplifyRaw_bin_rest op l r hlr] at he
+    cases h1 : isBad l with
+    | true => simp [h1] at he
+    | false =>
+      cases h2 : isBad r with
+      | true => simp [h1, h2] at he
+      | false =>
+        simp only [h1, h2, Bool.false_eq_true, if_false] at he
+        cases op
+        case mod =>
+          simp only at he
+          by_cases hm : modCollapse l r = true
+          · simp only [hm, if_true, Res.ok.injEq, Prod.mk.injEq] at he
+            obtain ⟨_, rfl⟩ := he; exact hl
+          · simp only [hm, Bool.false_eq_true, if_false] at he
+            exact (neutralizeRaw_bin_NF hl hr hlr (fun h => by simp [mergeable] at h) (fun _ => by simpa using hm) he).1
+        case shl =>
+          exact (neutralizeRaw_bin_NF hl hr hlr (fun h => by simp [mergeable] at h) (fun e => by cases e) he).1
+        case shr =>
+          exact (neutralizeRaw_bin_NF hl hr hlr (fun h => by simp [mergeable] at h) (fun e => by cases e) he).1
+        all_goals exact merge_NF hl hr hlr rfl he
+
+theorem simplifyRaw_neg_NF {v : Arg} (hv : NF isReg v) {c : Bool} {a' : Arg}
+    (he : simplifyRaw (.neg v) = .ok (c, a')) : NF isReg a' := by
+  by_cases h2 : ∃ x y, v = .bin .sub x y
+  · obtain ⟨x, y, rfl⟩ := h2
+    rw [simplifyRaw_neg_sub] at he
+    cases hn : neutralizeRaw (.bin .sub y x) with
+    | panic => simp [hn] at he
+    | err e => simp [hn] at he
+    | ok p =>
+      obtain ⟨c1, z⟩ := p
+      simp only [hn, Res.ok.injEq, Prod.mk.injEq] at he
+      obtain ⟨_, rfl⟩ := he
+      obtain ⟨hx, hy, hf⟩ := NF_bin_inv hv
+      obtain ⟨_, _, hlr, _, hb, _⟩ := lfix_bin hf
+      exact (neutralizeRaw_bin_NF hy hx (fun ⟨p, q⟩ => hlr ⟨q, p⟩)
+        (fun _ => by rw [bothFound_sub_comm]; exact hb rfl) (fun e => by cases e) hn).1
+  · cases v with
+    | bin op x y =>
+      cases op
+      case sub => exact absurd ⟨x, y, rfl⟩ h2
+      all_goals
+        simp only [simplifyRaw, Res.ok.injEq, Prod.mk.injEq] at he
+        obtain ⟨rfl, rfl⟩ := he
+        simp only [NF]; exact ⟨hv, rfl⟩
+    | const k =>
+      simp only [simplifyRaw] at he
+      split at he
+      · simp at he
+      · simp only [Res.ok.injEq, Prod.mk.injEq] at he
+        obtain ⟨_, rfl⟩ := he; trivial
+    | str s => simp [simplifyRaw] at he
+    | addr s => simp [simplifyRaw] at he
+    | seq s => simp [simplifyRaw] at he
+    | ident s =>
+      simp only [simplifyRaw, Res.ok.injEq, Prod.mk.injEq] at he
+      obtain ⟨rfl, rfl⟩ := he
+      simp only [NF]; exact ⟨hv, rfl⟩
+    | neg s =>
+      simp only [simplifyRaw, Res.ok.injEq, Prod.mk.injEq] at he
+      obtain ⟨rfl, rfl⟩ := he
+      simp only [NF]; exact ⟨hv, rfl⟩
+    | not s =>
+      simp only [simplifyRaw, Res.ok.injEq, Prod.mk.injEq] at he
+      obtain ⟨rfl, rfl⟩ := he
+      simp only [NF]; exact ⟨hv, rfl⟩
+    | func n s =>
+      simp only [simplifyRaw, Res.ok.injEq, Prod.mk.injEq] at he
+      obtain ⟨rfl, rfl⟩ := he
+      simp only [NF]; exact ⟨hv, rfl⟩
+
+theorem simplifyRaw_not_NF {v : Arg} (hv : NF isReg v) {c : Bool} {a' : Arg}
+    (he : simplifyRaw (.not v) = .ok (c, a')) : NF isReg a' := by
+  cases v with
+  | const k =>
+    simp only [simplifyRaw, Res.ok.injEq, Prod.mk.injEq] at he
+    obtain ⟨_, rfl⟩ := he; trivial
+  | str s => simp [simplifyRaw] at he
+  | addr s => simp [simplifyRaw] at he
+  | seq s => simp [simplifyRaw] at he
+  | _ =>
+    simp only [simplifyRaw, Res.ok.injEq, Prod.mk.injEq] at he
+    obtain ⟨rfl, rfl⟩ := he
+    simp only [NF]; exact ⟨hv, rfl⟩
+
+theorem simplifyRaw_addr_NF {v : Arg} (hv : NF isReg v) {c : Bool} {a' : Arg}
+    (he : simplifyRaw (.addr v) = .ok (c, a')) : NF isReg a' := by
+  simp only [simplifyRaw] at he
+  split at he
+  · cases he
+  · rename_i hb
+    simp only [Res.ok.injEq, Prod.mk.injEq] at he
+    obtain ⟨rfl, rfl⟩ := he
+    simp only [NF]
+    refine ⟨hv, ?_⟩
+    simp only [simplifyRaw, hb, Bool.false_eq_true, if_false]
+
+theorem afterRawE_ok {ev ev' : Ev} {x a' : Arg} (h : afterRawE ev x = .ok ev' a') :
+    ∃ c, simplifyRaw x = .ok (c, a') ∧ ev' = ev.or ⟨c, none⟩ := by
+  unfold afterRawE at h
+  cases hs : simplifyRawE x with
+  | ok p =>
+    obtain ⟨c, y⟩ := p
+    rw [hs] at h
+    simp only [EvE.ok.injEq] at h
+    obtain ⟨rfl, rfl⟩ := h
+    exact ⟨c, simplifyRaw_of_okE hs, rfl⟩
+  | err e t => rw [hs] at h; cases h
+  | panic => rw [hs] at h; cases h
+
+theorem Ev.or_cause_none {a b : Ev} (h : (a.or b).cause = none) : a.cause = none ∧ b.cause = none := by
+  unfold Ev.or at h
+  simp only at h
+  cases ha : a.cause with
+  | none => rw [ha] at h; exact ⟨rfl, by simpa using h⟩
+  | some x => rw [ha] at h; simp at h
+
+/-- **a complete result of `evaluate` is `NF`** -/
+theorem evaluateE_NF_both (lk : Bytes → Lookup) :
+    (∀ a ev a', evaluateE lk isReg a = .ok ev a' → ev.cause = none → NF isReg a') ∧
+    (∀ as ev as', evaluateArgsE lk isReg as = .ok ev as' → ev.cause = none → NFs isReg as') := by
+  apply Arg.ind2
+  case const => intro v ev a' h _; simp only [evaluateE, EvE.ok.injEq] at h; obtain ⟨_, rfl⟩ := h; trivial
+  case ident =>
+    intro s ev a' h hc
+    simp only [evaluateE] at h
+    split at h
+    · rename_i hr
+      simp only [EvE.ok.injEq] at h
+      obtain ⟨_, rfl⟩ := h
+      exact hr
+    · cases hl : lk s with
+      | notFound => rw [hl] at h; cases h
+      | deferred => rw [hl] at h; simp only [EvE.ok.injEq] at h; obtain ⟨rfl, _⟩ := h; cases hc
+      | found v => rw [hl] at h; simp only [EvE.ok.injEq] at h; obtain ⟨_, rfl⟩ := h; trivial
+  case str => intro v ev a' h _; simp only [evaluateE, EvE.ok.injEq] at h; obtain ⟨_, rfl⟩ := h; trivial
+  case bin =>
+    intro op l r ihl ihr ev a' h hc
+    simp only [evaluateE] at h
+    cases h1 : evaluateE lk isReg l with
+    | ok e1 l' =>
+      rw [h1] at h
+      cases h2 : evaluateE lk isReg r with
+      | ok e2 r' =>
+        rw [h2] at h
+        obtain ⟨c, hs, rfl⟩ := afterRawE_ok h
+        obtain ⟨hc12, _⟩ := Ev.or_cause_none hc
+        obtain ⟨hc1, hc2⟩ := Ev.or_cause_none hc12
+        exact simplifyRaw_bin_NF (ihl _ _ h1 hc1) (ihr _ _ h2 hc2) hs
+      | nosuch n r' => rw [h2] at h; cases h
+      | err e t => rw [h2] at h; cases h
+      | panic => rw [h2] at h; cases h
+    | nosuch n l' => rw [h1] at h; cases h
+    | err e t => rw [h1] at h; cases h
+    | panic => rw [h1] at h; cases h
+  case neg =>
+    intro v ih ev a' h hc
+    simp only [evaluateE] at h
+    cases h1 : evaluateE lk isReg v with
+    | ok e1 v' =>
+      rw [h1] at h
+      obtain ⟨c, hs, rfl⟩ := afterRawE_ok h
+      exact simplifyRaw_neg_NF (ih _ _ h1 (Ev.or_cause_none hc).1) hs
+    | nosuch n l' => rw [h1] at h; cases h
+    | err e t => rw [h1] at h; cases h
+    | panic => rw [h1] at h; cases h
+  case not =>
+    intro v ih ev a' h hc
+    simp only [evaluateE] at h
+    cases h1 : evaluateE lk isReg v with
+    | ok e1 v' =>
+      rw [h1] at h
+      obtain ⟨c, hs, rfl⟩ := afterRawE_ok h
+      exact simplifyRaw_not_NF (ih _ _ h1 (Ev.or_cause_none hc).1) hs
+    | nosuch n l' => rw [h1] at h; cases h
+    | err e t => rw [h1] at h; cases h
+    | panic => rw [h1] at h; cases h
+  case addr =>
+    intro v ih ev a' h hc
+    simp only [evaluateE] at h
+    cases h1 : evaluateE lk isReg v with
+    | ok e1 v' =>
+      rw [h1] at h
+      obtain ⟨c, hs, rfl⟩ := afterRawE_ok h
+      exact simplifyRaw_addr_NF (ih _ _ h1 (Ev.or_cause_none hc).1) hs
+    | nosuch n l' => rw [h1] at h; cases h
+    | err e t => rw [h1] at h; cases h
+    | panic => rw [h1] at h; cases h
+  case seq =>
+    intro as ih ev a' h hc
+    simp only [evaluateE] at h
+    cases h1 : evaluateArgsE lk isReg as with
+    | ok e1 as' => rw [h1] at h; simp only [EvE.ok.injEq] at h; obtain ⟨rfl, rfl⟩ := h; simp only [NF]; exact ih _ _ h1 hc
+    | nosuch n l' => rw [h1] at h; cases h
+    | err e t => rw [h1] at h; cases h
+    | panic => rw [h1] at h; cases h
+  case func =>
+    intro f as ih ev a' h hc
+    simp only [evaluateE] at h
+    cases h1 : evaluateArgsE lk isReg as with
+    | ok e1 as' => rw [h1] at h; simp only [EvE.ok.injEq] at h; obtain ⟨rfl, rfl⟩ := h; simp only [NF]; exact ih _ _ h1 hc
+    | nosuch n l' => rw [h1] at h; cases h
+    | err e t => rw [h1] at h; cases h
+    | panic => rw [h1] at h; cases h
+  case nil => intro ev as' h _; simp only [evaluateArgsE, EvE.ok.injEq] at h; obtain ⟨_, rfl⟩ := h; trivial
+  case cons =>
+    intro a as iha ihas ev as' h hc
+    simp only [evaluateArgsE] at h
+    cases h1 : evaluateE lk isReg a with
+    | ok e1 a' =>
+      rw [h1] at h
+      cases h2 : evaluateArgsE lk isReg as with
+      | ok e2 as2 =>
+        rw [h2] at h
+        simp only [EvE.ok.injEq] at h
+        obtain ⟨rfl, rfl⟩ := h
+        obtain ⟨hc1, hc2⟩ := Ev.or_cause_none hc
+        simp only [NFs]
+        exact ⟨iha _ _ h1 hc1, ihas _ _ h2 hc2⟩
+      | nosuch n r' => rw [h2] at h; cases h
+      | err e t => rw [h2] at h; cases h
+      | panic => rw [h2] at h; cases h
+    | nosuch n l' => rw [h1] at h; cases h
+    | err e t => rw [h1] at h; cases h
+    | panic => rw [h1] at h; cases h
+
+theorem evaluateE_NF {lk : Bytes → Lookup} {a : Arg} {ev : Ev} {a' : Arg} (h : evaluateE lk isReg a = .ok ev a')
+    (hc : ev.cause = none) : NF isReg a' := (evaluateE_NF_both lk).1 a ev a' h hc
+
+/-- **`evaluate` is idempotent**: a complete result is a fixed point of `evaluate` over every table -/
+theorem evaluateE_idempotent {lk : Bytes → Lookup} {a : Arg} {ev : Ev} {a' : Arg}
+    (h : evaluateE lk isReg a = .ok ev a') (hc : ev.cause = none) (lk' : Bytes → Lookup) :
+    evaluateE lk' isReg a' = .ok ⟨false, none⟩ a' := NF_stable (evaluateE_NF h hc) lk'
+
+end
+
 end Trion.Simp
